@@ -165,6 +165,10 @@ type hlSim struct {
 	lastBlockGroups []hlGroupOutcome
 	// accounts that never propose (so that they become absent)
 	noPropose map[basics.Address]bool
+	// when set, called by step() after the PRNG-chosen groups to offer further groups
+	extraOffer func(ev *eval.BlockEvaluator)
+	// rounds right after a commit boundary of a big flush: per-property lookups probe them
+	probeRounds []basics.Round
 }
 
 type hlGroupOutcome struct {
@@ -417,6 +421,9 @@ func (s *hlSim) step() *ledgercore.ValidatedBlock {
 	for i := 0; i < n; i++ {
 		s.g.offerRandom(ev)
 	}
+	if s.extraOffer != nil {
+		s.extraOffer(ev)
+	}
 	vb, err := s.finishBlock(ev)
 	if err != nil {
 		// A block made of groups the evaluator accepted must be producible and must validate (C20).
@@ -455,8 +462,8 @@ func (s *hlSim) waitBlockQueue() {
 func (s *hlSim) flush() basics.Round {
 	s.waitBlockQueue()
 	l := s.l
-	l.trackers.waitAccountsWriting()
 	l.trackerMu.Lock() // same lock notifyCommit/committedUpTo take while scheduling
+	l.trackers.waitAccountsWriting()
 	rnd := l.Latest()
 	maxLookback := basics.Round(0)
 	for _, lt := range l.trackers.trackers {
@@ -479,8 +486,8 @@ func (s *hlSim) flush() basics.Round {
 		l.trackers.accountsWriting.Add(1)
 		l.trackers.deferredCommits <- dcc
 	}
-	l.trackerMu.Unlock()
 	l.trackers.waitAccountsWriting()
+	l.trackerMu.Unlock()
 	s.tr("flush -> dbRound %d (latest %d)", l.LatestTrackerCommitted(), rnd)
 	return l.LatestTrackerCommitted()
 }
@@ -488,7 +495,17 @@ func (s *hlSim) flush() basics.Round {
 // settle lets the background committer finish whatever it has scheduled.
 func (s *hlSim) settle() {
 	s.waitBlockQueue()
-	s.l.trackers.waitAccountsWriting()
+	hlWaitAccountsWriting(s.l)
+}
+
+// hlWaitAccountsWriting waits for the scheduled tracker commits the way the ledger itself does
+// (reloadLedger): under trackerMu, which serializes the wait with scheduleCommit's
+// accountsWriting.Add(1). Waiting without it is a WaitGroup misuse that the race detector
+// reports (harness artefact, seen once in the C14 thorough race lane).
+func hlWaitAccountsWriting(l *Ledger) {
+	l.trackerMu.Lock()
+	l.trackers.waitAccountsWriting()
+	l.trackerMu.Unlock()
 }
 
 func (s *hlSim) reload() {
